@@ -573,7 +573,7 @@ Qed.
 
 Theorem model_spec_ok : forall i, wf i = true -> spec_ok i (model i) = true.
 Proof.
-  intros [s|a b|d s|late log ids chain|ti rev pok log ids chain] Hwf; cbn [model].
+  intros [s|a b|d s|late log ids chain|ti rev pok log ids chain|log ids chain] Hwf; cbn [model].
   - cbn [spec_ok]. apply parse_ok_model.
   - cbn [spec_ok wf] in *. apply andb_true_iff in Hwf. destruct Hwf as [Ha Hb].
     rewrite subset_decl_is_subset by assumption. apply Bool.eqb_reflx.
@@ -591,6 +591,9 @@ Proof.
     destruct (validate_ids ids) eqn:V; try reflexivity. destruct ti.
     + cbn [spec_ok]. destruct pok, log; reflexivity.
     + pose proof (verify_obs_ok false log ids chain Hc) as H. unfold verify_obs in *. cbn [spec_ok] in *. exact H.
+  - destruct (validate_ids ids) eqn:V; try reflexivity. destruct log; [|reflexivity].
+    cbn [spec_ok]. destruct (is_pass (verify_identities ids chain)) eqn:P; [reflexivity|].
+    rewrite P. reflexivity.
 Qed.
 
 (* C04_plugin_guard: the native check is performed iff the plugin does not
